@@ -170,22 +170,26 @@ def extract_blocks(
     # If mixed element, each argument has no sub-elements
     parts = tuple(sorted(set(part for a in arguments if (part := a.part()) is not None)))
     if parts == ():
+        # Number of blocks per argument (test space first); an argument
+        # that is not on a mixed element makes up a single block
+        num_blocks = [max(a.ufl_element().num_sub_elements, 1) for a in arguments[:arity]]
+
+        def block(pi, pj=None):
+            f = fs.split(form, pi, pj)
+            return None if f.empty() else f
+
         if i is None and j is None:
-            num_sub_elements = arguments[0].ufl_element().num_sub_elements
             # If form has no sub elements, return the form itself.
-            if num_sub_elements == 0:
+            if arguments[0].ufl_element().num_sub_elements == 0:
                 return form
-            forms = []
-            for pi in range(num_sub_elements):
-                form_i: list[object | None] = []
-                for pj in range(num_sub_elements):
-                    f = fs.split(form, pi, pj)
-                    if f.empty():
-                        form_i.append(None)
-                    else:
-                        form_i.append(f)
-                forms.append(tuple(form_i))
-            return tuple(forms)  # type: ignore[return-value]
+            if arity == 1:
+                return tuple(block(pi) for pi in range(num_blocks[0]))
+            return tuple(
+                tuple(block(pi, pj) for pj in range(num_blocks[1])) for pi in range(num_blocks[0])
+            )
+        elif arity == 2 and j is None:
+            # The ith row
+            return tuple(block(i, pj) for pj in range(num_blocks[1]))
         else:
             return fs.split(form, i, j)
 
